@@ -601,6 +601,43 @@ pub fn run_generated(seed: u64, profile: Profile, enabled: &[String], keep_log: 
     for p in 0..initial.min(cfg.n) {
         ok = ok && run(&mut w, &mut cmds, Cmd::Join { p });
     }
+    // C13 runs, sometimes: a scripted opening that puts a TTL key the predicate depends on below the
+    // watermark of a live, published member's copy (through an inconsistent catch-up input), lets it
+    // expire without any change of the copy's (watermark, max version), and evaluates again
+    if ok && g.k.odd_catchup && cfg.n >= 3 && cfg.predicate && g.r.chance(0.1) {
+        let small = |g: &mut Gen| {
+            g.val_ctr += 1;
+            ValSpec { class: 1, len: 3, seed: (g.r.next() << 20) | g.val_ctr }
+        };
+        let mut script: Vec<Cmd> = vec![Cmd::Join { p: 0 }, Cmd::Join { p: 1 }, Cmd::Join { p: 2 }];
+        script.push(Cmd::Write { p: 1, op: WriteOp::SetTtl, key: "svc".into(), val: small(&mut g) });
+        script.push(Cmd::Handshake { a: 0, b: 1 });
+        script.push(Cmd::Handshake { a: 2, b: 1 });
+        for _ in 0..3 {
+            script.push(Cmd::Handshake { a: 1, b: 0 });
+            script.push(Cmd::Advance { ms: 1000 });
+        }
+        script.push(Cmd::Evaluate { p: 0 });
+        script.push(Cmd::Write { p: 1, op: WriteOp::Set, key: "x".into(), val: small(&mut g) });
+        script.push(Cmd::Handshake { a: 2, b: 1 });
+        for c in script {
+            ok = ok && run(&mut w, &mut cmds, c);
+        }
+        if ok && w.running(1) {
+            let member = w.nodes[1].as_ref().unwrap().inc;
+            let grace = cfg.grace_ms[0];
+            let mut tail: Vec<Cmd> = vec![Cmd::Catchup { p: 0, member, q: 2, claim_collected: true }, Cmd::Handshake { a: 1, b: 0 }, Cmd::Evaluate { p: 0 }];
+            tail.push(Cmd::Advance { ms: grace + g.r.below(3) * 1000 });
+            tail.push(Cmd::Handshake { a: 1, b: 0 });
+            tail.push(Cmd::Advance { ms: 1000 });
+            tail.push(Cmd::Handshake { a: 1, b: 0 });
+            tail.push(Cmd::Gc { p: 0 });
+            tail.push(Cmd::Evaluate { p: 0 });
+            for c in tail {
+                ok = ok && run(&mut w, &mut cmds, c);
+            }
+        }
+    }
     let mut i = 0;
     let mut round_pending: Vec<Cmd> = Vec::new();
     while ok && i < g.k.steps {
